@@ -182,10 +182,48 @@ class Folder2(Folder):
 _NONE = object()
 
 
+def _elementwise(v: Any) -> bool:
+    return getattr(v, "_elementwise", False)
+
+
+def _compare(self, n: ast.Compare):
+    """A comparison whose operand is a table / column stand-in (sa/frame.py) is element-wise and yields a column, not a bool."""
+    import operator
+
+    if len(n.ops) == 1 and type(n.ops[0]) in (ast.Eq, ast.NotEq, ast.Lt, ast.LtE, ast.Gt, ast.GtE):
+        left, right = self.fold(n.left), self.fold(n.comparators[0])
+        if _elementwise(left) or _elementwise(right):
+            op = {ast.Eq: operator.eq, ast.NotEq: operator.ne, ast.Lt: operator.lt, ast.LtE: operator.le, ast.Gt: operator.gt, ast.GtE: operator.ge}[type(n.ops[0])]
+            return op(left, right)
+        f = {ast.Eq: operator.eq, ast.NotEq: operator.ne, ast.Lt: operator.lt, ast.LtE: operator.le, ast.Gt: operator.gt, ast.GtE: operator.ge}[type(n.ops[0])]
+        return bool(f(left, right))
+    return Folder._f_Compare(self, n)
+
+
+def _unary(self, n: ast.UnaryOp):
+    if isinstance(n.op, ast.Invert):
+        v = self.fold(n.operand)
+        if _elementwise(v) or isinstance(v, int):
+            return ~v
+        raise NotConst("unary ~")
+    return Folder._f_UnaryOp(self, n)
+
+
+def _binop(self, n: ast.BinOp):
+    if isinstance(n.op, (ast.BitAnd, ast.BitOr)):
+        left, right = self.fold(n.left), self.fold(n.right)
+        if _elementwise(left) or _elementwise(right):
+            return (left & right) if isinstance(n.op, ast.BitAnd) else (left | right)
+    return Folder._f_BinOp(self, n)
+
+
 def _gen(self, n):
     return iter(Folder._f_ListComp(self, n))
 
 
+Folder2._f_Compare = _compare
+Folder2._f_UnaryOp = _unary
+Folder2._f_BinOp = _binop
 Folder2._f_GeneratorExp = _gen  # a generator expression is a one-shot iterator (elements computed when it is created)
 
 
@@ -284,8 +322,8 @@ class BlockEval2(BlockEval):
     def _assign(self, t: ast.AST, v: Any) -> None:
         if isinstance(t, ast.Subscript) and not (isinstance(t.value, ast.Name)):
             base = self.fold(t.value)
-            if isinstance(base, (dict, list)):
-                base[self.fold(t.slice)] = v
+            if isinstance(base, (dict, list)) or (getattr(base, "_folder_stub", False) and hasattr(base, "__setitem__")):
+                base[self.fold(t.slice)] = v  # d[k][j] = v, frame.loc[rows, column] = v, frame.attrs[k] = v
                 return
         if isinstance(t, ast.Attribute):
             base = self.fold(t.value)
